@@ -153,7 +153,30 @@ func genC14Cases(c *orch.Ctx) []*c14Case {
 			cases = append(cases, &c14Case{Grammar: "constructs", Label: "combo", Project: p, Files: map[string]string{"ctl/zoo_gen.go": renderZoo("ctl", picks)}, Argv: c14Commands[1+j%4]})
 		}
 	}
+	// ... and declared types living in packages with awkward import paths (a bare "v", version suffixes, keywords-alikes)
+	for k, dir := range []string{"lib/v", "lib/thing/v2", "lib/thing/v0", "lib/v10x", "lib/x/vv", "lib/go", "lib/int"} {
+		p := base()
+		name := filepath.Base(dir)
+		if name == "v2" || name == "v0" {
+			name = "thing"
+		}
+		if name == "go" || name == "int" {
+			name = "pkg" + name
+		}
+		src := "package " + name + "\n\ntype Item struct {\n\tA string `json:\"a\"`\n}\n"
+		ctl := "package ctl\n\nimport (\n\t\"github.com/gopher-fleece/runtime\"\n\todd \"" + p.ModPath + "/" + dir + "\"\n)\n\n// @Tag(Odd)\n// @Route(/odd)\ntype OddCtl struct {\n\truntime.GleeceController\n}\n\n// @Method(POST)\n// @Route(/item)\n// @Body(in)\nfunc (c *OddCtl) Put(in odd.Item) (odd.Item, error) {\n\treturn in, nil\n}\n"
+		cases = append(cases, &c14Case{Grammar: "constructs", Label: "type-from-package-path-" + dir, Project: p, Files: map[string]string{dir + "/item.go": src, "ctl/zz_odd.go": ctl}, Argv: c14Commands[k%3]})
+	}
 	// grammar 2: malformed annotations
+	for k, ll := range leadLineSets {
+		p := base()
+		cc := &p.Controllers[0]
+		for mi := range cc.Methods {
+			cc.Methods[mi].LeadLines = ll
+			cc.Methods[mi].Descr = ""
+		}
+		cases = append(cases, &c14Case{Grammar: "annotations", Label: fmt.Sprintf("lead-lines-%d", k), Project: p, Argv: c14Commands[k%3]})
+	}
 	mAnn, cAnn := annotationMatrix(c.Seed, !c.Quick())
 	for round := 0; round < scale; round++ {
 		methodAnns := badAnnotations
@@ -231,6 +254,58 @@ func genC14Cases(c *orch.Ctx) []*c14Case {
 		}
 		cc.Methods = append(cc.Methods, m)
 		cases = append(cases, &c14Case{Grammar: "validator-tags", Label: fmt.Sprintf("param-%d", j), Project: p, Argv: c14Commands[j%2]})
+	}
+	// ... and on parameters of every location whose type is an enum / alias / pointer (a $ref or a wrapped schema
+	// at the usage site), under both spec versions
+	{
+		usageRules := []string{"oneof=a b", "enum=a,b", "required", "min=1", "max=3", "len=2", "email", "gte=0", "oneof=", "pattern=^a+$"}
+		k := 0
+		for _, in := range []string{"query", "header", "form", "path"} {
+			for _, ty := range []string{"enum", "alias", "ptr-enum", "slice-enum"} {
+				for _, ver := range []string{"3.0.0", "3.1.0"} {
+					rule := usageRules[k%len(usageRules)]
+					k++
+					if !c.Quick() {
+						// thorough: every rule
+						rule = ""
+					}
+					rules := []string{rule}
+					if rule == "" {
+						rules = usageRules
+					}
+					for _, rl := range rules {
+						p := base()
+						p.Config.OpenAPI = ver
+						cc := &p.Controllers[0]
+						p.Enums = append(p.Enums, synth.Enum{Name: "UsageEnum", Pkg: cc.Pkg, Base: "string", Values: []synth.EnumConst{{Name: "UsageEnumA", Lit: `"a"`, Text: "a"}, {Name: "UsageEnumB", Lit: `"b"`, Text: "b"}}})
+						p.Aliases = append(p.Aliases, synth.Alias{Name: "UsageAlias", Pkg: cc.Pkg, Base: "string"})
+						var t synth.T
+						switch ty {
+						case "enum":
+							t = synth.Named(cc.Pkg, "UsageEnum")
+						case "alias":
+							t = synth.Named(cc.Pkg, "UsageAlias")
+						case "ptr-enum":
+							t = synth.Ptr(synth.Named(cc.Pkg, "UsageEnum"))
+						case "slice-enum":
+							t = synth.Slice(synth.Named(cc.Pkg, "UsageEnum"))
+						}
+						if in == "path" && ty != "enum" && ty != "alias" {
+							continue
+						}
+						m := synth.Method{Name: "UsageParam", Verb: "POST", Route: "/usageparam", Params: []synth.Param{{GoName: "u", Type: t, In: in, Validate: rl}}}
+						if in == "path" {
+							m.Route += "/{u}"
+						}
+						if strings.Contains(cc.Route, "{tenant}") {
+							m.Params = append(m.Params, synth.Param{GoName: "tenant", Type: synth.Prim("string"), In: "path"})
+						}
+						cc.Methods = append(cc.Methods, m)
+						cases = append(cases, &c14Case{Grammar: "validator-tags", Label: fmt.Sprintf("usage-%s-%s-%s-%s", in, ty, ver, rl), Project: p, Argv: c14Commands[k%2]})
+					}
+				}
+			}
+		}
 	}
 	// grammar 4: configuration documents
 	cfgProject := base()
@@ -432,7 +507,8 @@ func c14(c *orch.Ctx) (*report.Result, error) {
 		oc := &c14Outcome{cs: cs, pr: cr.ProcResult, dir: dir}
 		oc.crash = lab.Classify(cr.ProcResult)
 		oc.timedOut = cr.TimedOut || cr.Exit == 124
-		if cr.Exit == 0 {
+		if cr.Exit == 0 && !strings.Contains(cs.Label, "outputPath") {
+			// (a corrupted outputPath that still is a string simply names another file: nothing is promised then)
 			for _, f := range promisedFor(cs.Argv) {
 				if _, err := os.Stat(filepath.Join(dir, f)); err != nil {
 					oc.missing = append(oc.missing, f)
